@@ -29,7 +29,8 @@ PARTIAL = [
     'areas: theorems are about the area vectors / radicands (area = sum sqrt(q) / den); sqrt itself, float rounding, the float32 '
     'accumulators and LAPACK det are runtime, covered by the tolerance of the P-tie',
     'generate_random_mesh (scipy Delaunay) is exercised by the oracle only',
-    'modes agree on straight planar-faced NON-affine cells (truncated cones): oracle only; the theorems C11_*_modes_agree_affine '
+    'modes agree on straight planar-faced NON-affine cells (truncated cones; obliquely cut prisms / hexes with non-parallel '
+    'end faces): oracle only; the theorems C11_*_modes_agree_affine '
     'cover affine cells (parallelepiped, triangle prism, pyramid over a parallelogram, parallelogram)',
 ]
 RULE = ('(P) per kernel x mode x type N disjoint elements (half: independent random points of the grid {k 2^-16 : |k| <= 2^19}^3, '
@@ -37,7 +38,10 @@ RULE = ('(P) per kernel x mode x type N disjoint elements (half: independent ran
         'and exactly by the model; (D) conforming meshes (tet, hex, prism, pyr, hex+prism+pyr, tet2, tri, quad, tri+quad, polygon, '
         'polyhedron, hexprism; affine / jittered; voids; ids dense / sparse / large / huge / prefix-like; storage asc / desc / '
         'shuffled; type blocks shuffled) through the id lookup, x mode; (oracle) each mesh x api x mode x {relabel, storage, '
-        'rigid, translate, scale, reflect} + modes-agree-on-affine + bricks (type x n x lengths) + generate_random_mesh; '
+        'rigid, translate, scale, reflect} + modes-agree-on-affine + modes = exact volume on straight planar-faced non-affine '
+        'cells under a random dyadic affine map (frustums: parallel end faces; obliquely cut prisms / hexes: NON-parallel end '
+        'faces - triangle extruded to three different heights, cone cut at three different ratios, quad extruded up to an '
+        'oblique plane; connectivity started at a random corner) + bricks (type x n x lengths) + generate_random_mesh; '
         'a case is non-trivial when the exact value is not ~0 (P) / always (metamorphic: the transformed mesh differs); '
         'distinct = distinct (stream, mesh / element, api, mode, transform)')
 ASSUMPTIONS = [
@@ -295,11 +299,23 @@ def gen_shell(rng, kind=None, max_cells=3, order=None, id_style=None, jit=None):
             'nodes': [(ids[k], pos[k]) for k in keys], 'blocks': blocks}
 
 
-def planar_cells(rng, ty, n_elem):
-    """straight, planar-faced but NOT affine cells (truncated cones over a planar convex base), all coordinates dyadic;
-    returns the mesh and the exact signed volumes (divergence theorem over the planar faces)"""
+def planar_cells(rng, ty, n_elem, style='frustum'):
+    """straight, planar-faced but NOT affine cells, all coordinates dyadic; returns the mesh and the exact signed volumes
+    (divergence theorem over the planar faces).
+    style 'frustum': truncated cones over a planar convex base (top face = homothetic image of the base: end faces PARALLEL).
+    style 'cut'    : end faces NOT parallel (hex, prism):
+        prism 'extruded': a triangle in z = 0 extruded along z to three different heights h1, h2, h3 > 0 (lateral quads are
+                          vertical, hence planar; volume = base area * (h1 + h2 + h3) / 3, asserted exactly here);
+        prism 'cone'    : top_i = O + lam_i (base_i - O) with three different lam_i (each lateral quad lies in the plane
+                          through O and a base edge; lateral edges concurrent instead of parallel);
+        hex             : a convex quad in z = 0 extruded along z up to the oblique plane z = a + b x + c y, (b, c) != 0.
+      The connectivity starts at a random corner (cyclic shift of both end faces, orientation unchanged).
+    Every reference cell is then mapped by a random dyadic affine map with det >= 1/4 (rotation / shear / scaling /
+    translation keep faces planar and keep non-parallel faces non-parallel)."""
     nodes, rows, exact = [], [], {}
     nid = 0
+    if style == 'cut':
+        return _planar_cut_cells(rng, ty, n_elem)
     for k in range(n_elem):
         d = [F(rng.randint(0, 3), 8) for _ in range(4)]
         quad = [(F(0) - d[0], F(0) - d[1], F(0)), (F(1) + d[1], F(0) - d[2], F(0)), (F(1) + d[2], F(1) + d[3], F(0)),
@@ -335,6 +351,69 @@ def planar_cells(rng, ty, n_elem):
     return {'kind': 'planar:' + ty, 'order': 'shuf', 'id_style': 'dense', 'nodes': nodes, 'blocks': {ty: rows}}, exact
 
 
+def _planar_cut_cells(rng, ty, n_elem):
+    assert ty in ('hex', 'prism')
+    nodes, rows, exact, sub = [], [], {}, []
+    nid = 0
+    for k in range(n_elem):
+        d = [F(rng.randint(0, 3), 8) for _ in range(4)]
+        quad = [(F(0) - d[0], F(0) - d[1], F(0)), (F(1) + d[1], F(0) - d[2], F(0)), (F(1) + d[2], F(1) + d[3], F(0)),
+                (F(0) - d[3], F(1) + d[0], F(0))]               # convex, counter-clockwise seen from +z
+        closed = None
+        if ty == 'hex':
+            variant = 'oblique-plane'
+            a = rng.choice([F(1), F(3, 2), F(2)])
+            while True:
+                b, c = (F(rng.randint(-2, 2), 8) for _ in range(2))
+                if (b, c) != (0, 0):
+                    break
+            r = rng.randrange(4)
+            base = [quad[(i + r) % 4] for i in range(4)]
+            top = [(q[0], q[1], a + b * q[0] + c * q[1]) for q in base]
+            assert all(q[2] >= F(1, 4) for q in top)
+        else:
+            tri = [quad[0], quad[2], quad[1]]                    # femio's prism: bottom triangle clockwise seen from the top
+            r = rng.randrange(3)
+            base = [tri[(i + r) % 3] for i in range(3)]
+            variant = rng.choice(['extruded', 'cone'])
+            if variant == 'extruded':
+                h = rng.sample([F(n, 8) for n in range(2, 17)], 3)              # three different heights in [1/4, 2]
+                top = [(q[0], q[1], hh) for q, hh in zip(base, h)]
+                cr = _cross(G.sub(base[2], base[0]), G.sub(base[1], base[0]))    # counter-clockwise order: +z
+                closed = cr[2] / 2 * sum(h) / 3
+            else:
+                O = (F(rng.randint(0, 8), 8), F(rng.randint(0, 8), 8), F(rng.randint(4, 12), 4))
+                lam = rng.sample([F(1, 4), F(3, 8), F(1, 2), F(5, 8), F(3, 4)], 3)
+                top = [tuple(O[j] + l * (q[j] - O[j]) for j in range(3)) for q, l in zip(base, lam)]
+        ref = base + top
+        while True:
+            A = [[F(rng.randint(-8, 8), 4) for _ in range(3)] for _ in range(3)]
+            if G.det3(*A) >= F(1, 4):
+                break
+        t = [F(rng.randint(-8, 8), 4) for _ in range(3)]
+        pts = [tuple(t[r_] + sum(A[r_][c_] * q[c_] for c_ in range(3)) for r_ in range(3)) for q in ref]
+        # generator self-checks (exact): every face planar, end faces not parallel, closed form of the extruded wedge
+        for f in G.FACES[ty]:
+            if len(f) == 4:
+                assert G.det3(G.sub(pts[f[1]], pts[f[0]]), G.sub(pts[f[2]], pts[f[0]]), G.sub(pts[f[3]], pts[f[0]])) == 0
+        nb, nt = (_cross(G.sub(pts[o + 1], pts[o]), G.sub(pts[o + 2], pts[o])) for o in (0, len(base)))
+        assert any(x != 0 for x in _cross(nb, nt))
+        ids = list(range(nid + 1, nid + len(pts) + 1))
+        nid += len(pts)
+        nodes += list(zip(ids, pts))
+        rows.append((k + 1, ids))
+        vol = F(0)
+        for f in G.FACES[ty]:
+            for i in range(1, len(f) - 1):
+                vol += G.det3(pts[f[0]], pts[f[i]], pts[f[i + 1]])
+        exact[k + 1] = vol / 6
+        assert exact[k + 1] > 0 and (closed is None or exact[k + 1] == closed * G.det3(*A))
+        sub.append(variant)
+    rng.shuffle(nodes)
+    return {'kind': 'planar-cut:' + ty, 'order': 'shuf', 'id_style': 'dense', 'nodes': nodes, 'blocks': {ty: rows},
+            'variants': sub}, exact
+
+
 def check_modes_planar(m, exact):
     out = []
     sc = scale_of(m)
@@ -343,7 +422,8 @@ def check_modes_planar(m, exact):
         v = evaluate(m, 'volume', mode)
         for e, _ in rows:
             if not abs(v[e] - float(exact[e])) <= 4 * tol_for(ty, mode) * sc ** 3:
-                out.append((f'modes-planar:volume:{ty}', f'volume of a planar-faced {ty} in mode {mode} differs from its exact volume',
+                out.append((f'modes-planar:volume:{ty}', f'volume of a planar-faced {ty} ({m.get("kind", "planar")}) in mode {mode} '
+                            f'differs from its exact volume',
                             {'element': e, 'mode': mode, 'got': v[e], 'exact': float(exact[e])}))
                 break
     return out
@@ -900,6 +980,17 @@ def run(ctx):
         m, exact = planar_cells(rng, ty, rng.randint(1, 4))
         ctx.case(('planar', k, ty), sample={'check': 'modes-planar', 'type': ty, 'n': len(exact)} if k == 0 else None)
         ctx.count('oracle:modes-planar:' + ty)
+        for sig, what, obs in check_modes_planar(m, exact):
+            ctx.fail(sig, what, {'check': 'modes-planar', 'mesh': G.to_json(m), 'exact': {str(e): str(v) for e, v in exact.items()}}, obs)
+    # ---- the same with NON-parallel end faces (obliquely cut wedges / hexes): all modes equal the exact volume
+    for k in range(ctx.n(16, 120)):
+        ty = ['prism', 'hex', 'prism', 'prism'][k % 4]
+        m, exact = planar_cells(rng, ty, rng.randint(1, 4), style='cut')
+        ctx.case(('planar-cut', k, ty), sample={'check': 'modes-planar', 'class': 'non-parallel end faces', 'type': ty,
+                                                'n': len(exact), 'variants': m['variants']} if k == 0 else None)
+        ctx.count('oracle:modes-planar-cut:' + ty)
+        for v in m['variants']:
+            ctx.count(f'planar-cut:{ty}:{v}')
         for sig, what, obs in check_modes_planar(m, exact):
             ctx.fail(sig, what, {'check': 'modes-planar', 'mesh': G.to_json(m), 'exact': {str(e): str(v) for e, v in exact.items()}}, obs)
     # ---- which Cfg does the tree implement (mixed-mesh assembly)?
